@@ -1161,4 +1161,375 @@ Section Step.
       + intros i Hi. cbn in Hi. injection Hi as <-. apply fresh_not_outside. apply (cu_ctx _ _ _ _ C).
       + left. apply snd_eq in Eop. rewrite Eop. now apply on_open_creat.
   Qed.
+
+  (* ---------------------------------------------------------------- the SAFE_WRITES temporary name *)
+  Lemma is_dot_len : forall c, is_dot c = true -> length c = 1%nat.
+  Proof. intros c H. apply str_eqb_eq in H. now subst. Qed.
+  Lemma is_dotdot_len : forall c, is_dotdot c = true -> length c = 2%nat.
+  Proof. intros c H. apply str_eqb_eq in H. now subst. Qed.
+
+  Lemma normal_long : forall c, (3 <= length c)%nat -> normal c.
+  Proof.
+    intros c H. repeat split.
+    - intros ->. cbn in H. lia.
+    - destruct (is_dot c) eqn:E; [apply is_dot_len in E; lia|reflexivity].
+    - destruct (is_dotdot c) eqn:E; [apply is_dotdot_len in E; lia|reflexivity].
+  Qed.
+
+  Lemma append_last_snoc : forall (q0 : list name) l sfx, append_last (q0 ++ [l]) sfx = q0 ++ [l ++ sfx].
+  Proof.
+    intros q0 l sfx. unfold append_last. rewrite rev_app_distr. cbn [rev app].
+    now rewrite rev_involutive.
+  Qed.
+
+  Lemma nfacts_tmp : forall q fs,
+    ctx fs -> nfacts q fs ->
+    nfacts (append_last q tmp_suffix) fs /\ length (append_last q tmp_suffix) = length q.
+  Proof.
+    intros q fs C [->|(Hn & Hne & Hs)].
+    - split; [|reflexivity]. right. repeat split.
+      + constructor; [|constructor]. apply normal_long. cbn. lia.
+      + discriminate.
+      + intros k Hk. cbn in Hk. destruct k; [|lia]. cbn [firstn]. rewrite app_nil_r.
+        destruct (c_dir _ C) as (? & ? & ? & ->). exact I.
+    - destruct (exists_last Hne) as (q0 & l & ->). rewrite append_last_snoc. split.
+      + right. repeat split.
+        * apply Forall_app in Hn as [Hn0 _]. apply Forall_app. split; [exact Hn0|].
+          constructor; [|constructor]. apply normal_long. rewrite app_length. cbn. lia.
+        * now destruct q0.
+        * intros k Hk. rewrite app_length in Hk. cbn in Hk.
+          rewrite firstn_app. replace (k - length q0)%nat with 0%nat by lia. cbn [firstn]. rewrite app_nil_r.
+          specialize (Hs k). rewrite app_length in Hs. cbn in Hs.
+          rewrite firstn_app in Hs. replace (k - length q0)%nat with 0%nat in Hs by lia. cbn [firstn] in Hs.
+          rewrite app_nil_r in Hs. apply Hs. lia.
+      + rewrite !app_length. reflexivity.
+  Qed.
+
+  Lemma relname_tmp : forall nm q, relname nm q -> relname (tmp_name nm) (append_last q tmp_suffix).
+  Proof. intros nm q [Ha Hc]. split; cbn; [exact Ha|now rewrite Hc]. Qed.
+
+  (* the resolution facts for the temporary name, from the bundle of the entry's own name *)
+  Lemma tmp_wok : forall q nm st0 st sy, cur q st0 st sy -> relname nm q ->
+    wok T (root (st_fs st)) (resolve (root (st_fs st)) (st_cwd st) (tmp_name nm) false) /\
+    wdepth (length T + length q) (resolve (root (st_fs st)) (st_cwd st) (tmp_name nm) false).
+  Proof.
+    intros q nm st0 st sy C Hrel. destruct (nfacts_tmp q (st_fs st) (cu_ctx _ _ _ _ C) (cu_nf _ _ _ _ C)) as [F L].
+    rewrite (cu_cwd _ _ _ _ C), <- L.
+    apply (name_wok (append_last q tmp_suffix) (st_fs st) (tmp_name nm) false); auto.
+    - apply (cu_ctx _ _ _ _ C).
+    - now apply relname_tmp.
+  Qed.
+
+  (* ---------------------------------------------------------------- restore_entry *)
+  Definition give_up (en : option errno) (stx : pstate) (wx : work) : status * pstate * work :=
+    match en with Some _ => (SFailed, stx, wx) | None => (SOk, stx, wx) end.
+
+  Definition wtmp_ok (w : work) : Prop := w_tmp w = None \/ w_tmp w = Some (tmp_name (w_name w)).
+
+  Definition re_post (e : entry) (q : list name) (st0 : pstate) (w : work) (st' : pstate) (w' : work) : Prop :=
+    exists sy, cur q st0 st' sy /\ w_name w' = w_name w /\ wfd_ok w' /\ wtmp_ok w' /\ (sy = true -> chmod_safe e w').
+
+  Lemma tail_create : forall fl e q st0 stA wA w en3 st3 w3 s st' w',
+    secure fl -> hl_ok e -> cur q st0 stA false -> relname (w_name wA) q -> wfd_ok wA -> w_tmp wA = None ->
+    w_name wA = w_name w ->
+    create_fs_obj fl e stA wA = (en3, st3, w3) -> give_up en3 st3 w3 = (s, st', w') ->
+    re_post e q st0 w st' w'.
+  Proof.
+    intros fl e q st0 stA wA w en3 st3 w3 s st' w' Hsec Hhl C Hrel Hfd Htmp Hnm Hcr Hgu.
+    destruct (create_fs_obj_spec fl e q st0 stA false wA en3 st3 w3 Hsec Hhl C Hrel Hfd Hcr) as (N1 & F1 & T1 & [C1|(-> & C1 & S1)]).
+    - exists false. assert (st' = st3 /\ w' = w3) as [-> ->] by (destruct en3; cbn in Hgu; now injection Hgu as _ <- <-).
+      repeat split; auto; try congruence.
+      left. destruct T1 as [T1|T1]; congruence.
+    - cbn in Hgu. injection Hgu as _ <- <-. exists true. repeat split; auto; try congruence.
+      left. destruct T1 as [T1|T1]; congruence.
+  Qed.
+
+  Lemma restore_entry_spec : forall fl e q st0 st w s st' w',
+    secure fl -> hl_ok e -> cur q st0 st false -> relname (w_name w) q -> wfd_ok w -> w_tmp w = None ->
+    restore_entry fl e st w = (s, st', w') -> re_post e q st0 w st' w'.
+  Proof.
+    intros fl e q st0 st w s st' w' Hsec Hhl C Hrel Hfd Htmp Hrun. unfold restore_entry in Hrun.
+    (* the UNLINK pre-step *)
+    set (pre := if has fl EXTRACT_UNLINK && negb (e_type e =? T_DIR)%N then _ else Some st) in Hrun.
+    assert (Hpre : forall stp, pre = Some stp -> cur q st0 stp false).
+    { unfold pre. intros stp Hp. destruct (has fl EXTRACT_UNLINK && negb (e_type e =? T_DIR)%N); [|now injection Hp as <-].
+      destruct (sys_unlink (st_fs st) (st_cwd st) (w_name w)) as [[en|] fs1] eqn:Eun.
+      - destruct (errno_eqb en ENOENT); [now injection Hp as <-|].
+        destruct (sys_rmdir (st_fs st) (st_cwd st) (w_name w)) as [[en2|] fs2] eqn:Erm; [discriminate|].
+        injection Hp as <-. apply snd_eq in Erm. rewrite Erm. now apply on_rmdir.
+      - injection Hp as <-. apply snd_eq in Eun. rewrite Eun. now apply on_unlink. }
+    destruct pre as [stp|] eqn:Epre.
+    2:{ injection Hrun as _ <- <-. exists false. repeat split; auto. now left. }
+    specialize (Hpre stp eq_refl). clear Epre.
+    (* first attempt *)
+    destruct (create_fs_obj fl e stp w) as [[en0 st1] w1] eqn:Ecr1.
+    destruct (create_fs_obj_spec fl e q st0 stp false w en0 st1 w1 Hsec Hhl Hpre Hrel Hfd Ecr1) as (N1 & F1 & T1 & D1).
+    assert (Tn1 : w_tmp w1 = None) by (destruct T1; congruence).
+    destruct D1 as [C1|(-> & C1 & S1)].
+    2:{ cbn in Hrun. injection Hrun as _ <- <-. exists true. repeat split; auto. now left. }
+    (* parent directory missing: create it, second attempt *)
+    set (second := match en0 with
+                   | Some ENOTDIR | Some ENOENT =>
+                       match create_parent_dir fl (w_name w1) st1 with (_, st1') => create_fs_obj fl e st1' w1 end
+                   | _ => (en0, st1, w1) end) in Hrun.
+    assert (Hsec2 : forall en1 st2 w2, second = (en1, st2, w2) ->
+              w_name w2 = w_name w /\ wfd_ok w2 /\ w_tmp w2 = None /\
+              (cur q st0 st2 false \/ (en1 = None /\ cur q st0 st2 true /\ chmod_safe e w2))).
+    { intros en1 st2 w2 H2. unfold second in H2.
+      assert (Hretry : match create_parent_dir fl (w_name w1) st1 with (_, st1') => create_fs_obj fl e st1' w1 end = (en1, st2, w2) ->
+                w_name w2 = w_name w /\ wfd_ok w2 /\ w_tmp w2 = None /\
+                (cur q st0 st2 false \/ (en1 = None /\ cur q st0 st2 true /\ chmod_safe e w2))).
+      { intros H3. destruct (create_parent_dir fl (w_name w1) st1) as [r1 st1'] eqn:Ecp.
+        assert (Rel1 : relname (w_name w1) q) by (now rewrite N1).
+        pose proof (create_parent_dir_spec fl q (w_name w1) st0 st1 false r1 st1' C1 Rel1 Ecp) as C1'.
+        destruct (create_fs_obj_spec fl e q st0 st1' false w1 en1 st2 w2 Hsec Hhl C1' Rel1 F1 H3) as (N2 & F2 & T2 & D2).
+        repeat split; auto; try congruence. destruct T2; congruence. }
+      destruct en0 as [[]|]; try (injection H2 as <- <- <-; repeat split; auto); now apply Hretry. }
+    destruct second as [[en1 st2] w2] eqn:Esec.
+    destruct (Hsec2 en1 st2 w2 eq_refl) as (N2 & F2 & Tn2 & D2). clear Hsec2.
+    destruct D2 as [C2|(-> & C2 & S2)].
+    2:{ cbn in Hrun. injection Hrun as _ <- <-. exists true. repeat split; auto. now left. }
+    assert (Rel2 : relname (w_name w2) q) by (now rewrite N2).
+    assert (Done : forall wx, w_name wx = w_name w2 -> w_fd wx = w_fd w2 -> w_tmp wx = w_tmp w2 ->
+              re_post e q st0 w st2 wx).
+    { intros wx Hn Hf Ht. exists false. repeat split; auto; try congruence.
+      - intros i Hi. apply F2. congruence.
+      - left. congruence. }
+    assert (Tail : forall fs3 en3 st3 w3 r,
+              ext T O (length T + length q) false (st_fs st2) fs3 ->
+              create_fs_obj fl e (with_fs st2 fs3) w2 = (en3, st3, w3) ->
+              give_up en3 st3 w3 = r -> r = (s, st', w') -> re_post e q st0 w st' w').
+    { intros fs3 en3 st3 w3 r E3 Hc3 Hg3 ->. eapply (tail_create fl e q st0 (with_fs st2 fs3) w2 w); eauto.
+      now apply cur_step_f. }
+    (* what is in the way *)
+    destruct en1 as [en1|]; [|cbn in Hrun; injection Hrun as _ <- <-; now apply Done].
+    destruct en1; try (injection Hrun as _ <- <-; now apply Done).
+    - (* EEXIST *)
+      destruct (has fl EXTRACT_NO_OVERWRITE).
+      { injection Hrun as _ <- <-. destruct (e_type e =? T_DIR)%N; now apply Done. }
+      cbv iota in Hrun.
+      set (r2 := match (if (e_type e =? T_DIR)%N then sys_stat (st_fs st2) (st_cwd st2) (w_name w2) true else inl ENOENT) with
+                 | inr n => inr n | inl _ => sys_stat (st_fs st2) (st_cwd st2) (w_name w2) false end) in Hrun.
+      destruct r2 as [er|n]; [injection Hrun as _ <- <-; now apply Done|].
+      destruct (negb (is_dir_node n)).
+      + destruct (has fl EXTRACT_SAFE_WRITES && is_reg_node n).
+        * (* temporary file *)
+          destruct (sys_open_creat_excl (st_fs st2) (st_cwd st2) (tmp_name (w_name w2)) _) as [[en3|] fs3] eqn:Etmp.
+          -- injection Hrun as _ <- <-. exists false. repeat split; auto; try congruence. now right.
+          -- injection Hrun as _ <- <-. exists false.
+             assert (Hfresh : ~ O (nino (st_fs st2))) by (apply fresh_not_outside, (cu_ctx _ _ _ _ C2)).
+             repeat split; auto; try congruence.
+             ++ apply snd_eq in Etmp. rewrite Etmp.
+                assert (C3 : cur q st0 (with_fs st2 (snd (sys_open_creat_excl (st_fs st2) (st_cwd st2) (tmp_name (w_name w2))
+                                (N.ldiff 384 (st_umask st2))))) false).
+                { apply cur_step_f; [exact C2|]. destruct (tmp_wok q (w_name w2) st0 st2 false C2 Rel2) as [X1 X2].
+                  apply ext_open_creat; auto. apply (c_b _ (cu_ctx _ _ _ _ C2)). }
+                pose proof (on_fd q st0 _ false (nino (st_fs st2))
+                              (fun x => match x with (d, _, t) => (d, N.ldiff (N.land (w_mode w2) 511) (st_umask st2), t) end) C3 Hfresh) as C4.
+                exact C4.
+             ++ intros i Hi. cbn in Hi. injection Hi as <-. exact Hfresh.
+             ++ right. reflexivity.
+        * destruct (sys_unlink (st_fs st2) (st_cwd st2) (w_name w2)) as [[en3|] fs3] eqn:Eun.
+          -- injection Hrun as _ <- <-. now apply Done.
+          -- destruct (create_fs_obj fl e (with_fs st2 fs3) w2) as [[en4 st4] w4] eqn:Ecr4.
+             eapply (Tail fs3 en4 st4 w4); eauto. apply snd_eq in Eun. rewrite Eun.
+             apply ext_unlink. apply (nm_wok q (w_name w2) Rel2 _ _ _ C2).
+      + destruct (negb (e_type e =? T_DIR)%N).
+        * destruct (sys_rmdir (st_fs st2) (st_cwd st2) (w_name w2)) as [[en3|] fs3] eqn:Erm.
+          -- injection Hrun as _ <- <-. now apply Done.
+          -- destruct (create_fs_obj fl e (with_fs st2 fs3) w2) as [[en4 st4] w4] eqn:Ecr4.
+             eapply (Tail fs3 en4 st4 w4); eauto. apply snd_eq in Erm. rewrite Erm.
+             apply ext_rmdir. apply (nm_wok q (w_name w2) Rel2 _ _ _ C2).
+        * injection Hrun as _ <- <-. destruct (negb (w_mode w2 =? node_perm n)%N && has fl EXTRACT_PERM); now apply Done.
+    - (* EISDIR *)
+      destruct (has fl EXTRACT_NO_OVERWRITE).
+      { injection Hrun as _ <- <-. destruct (e_type e =? T_DIR)%N; now apply Done. }
+      cbv iota in Hrun.
+      destruct (sys_rmdir (st_fs st2) (st_cwd st2) (w_name w2)) as [[en3|] fs3] eqn:Erm.
+      + injection Hrun as _ <- <-. now apply Done.
+      + destruct (create_fs_obj fl e (with_fs st2 fs3) w2) as [[en4 st4] w4] eqn:Ecr4.
+        eapply (Tail fs3 en4 st4 w4); eauto. apply snd_eq in Erm. rewrite Erm.
+        apply ext_rmdir. apply (nm_wok q (w_name w2) Rel2 _ _ _ C2).
+  Qed.
+
+  (* ---------------------------------------------------------------- header, finish, one whole entry *)
+  Lemma edit_deep_short : forall fuel fl nm st, (p_len nm < PATH_MAX)%nat -> edit_deep fuel fl nm st = (nm, st).
+  Proof.
+    intros [|f] fl nm st H; [reflexivity|]. cbn [edit_deep].
+    apply Nat.ltb_lt in H. now rewrite H.
+  Qed.
+
+  Lemma with_cwd_same : forall st, with_cwd st (st_cwd st) = st.
+  Proof. now intros []. Qed.
+
+  Record Inv (st : pstate) : Prop := mkInv { inv_cwd : st_cwd st = T; inv_ctx : ctx (st_fs st) }.
+
+  (* every inode number that occurs outside is in O, O-numbers are below nino, nothing inside is in O *)
+  Definition short (fl : N) (e : entry) : Prop :=
+    forall q, cleanup_pathname fl (e_path e) = ClOk q -> (length q < PATH_MAX)%nat.
+
+  Definition changed (st st' : pstate) : Prop :=
+    prune T (root (st_fs st')) = prune T (root (st_fs st)) /\ st_umask st' = st_umask st /\ Inv st'.
+
+  Lemma changed_of_stx : forall D sy st st', Inv st -> stx D sy st st' -> changed st st'.
+  Proof.
+    intros D sy st st' [Hc Hx] (E & C & U). split; [apply (ext_prune _ _ _ _ _ _ E)|split; [exact U|]].
+    constructor; [congruence|eapply ctx_ext; eauto].
+  Qed.
+
+  Lemma header_spec : forall fl e st r st' ow,
+    secure fl -> hl_ok e -> short fl e -> Inv st ->
+    header fl e st = (r, st', ow) ->
+    changed st st' /\
+    (forall w, ow = Some w ->
+       exists k stA sy, cur k stA st' sy /\ relname (w_name w) k /\ wfd_ok w /\ wtmp_ok w /\
+                        (sy = true -> chmod_safe e w) /\ (sy = false -> nfinal k (st_fs st'))).
+  Proof.
+    intros fl e st r st' ow Hsec Hhl Hshort [Hcwd Hctx] Hrun. pose proof Hsec as (Hs1 & Hs2 & Hs3).
+    assert (Hrefl : changed st st) by (split; [reflexivity|split; [reflexivity|now constructor]]).
+    unfold header in Hrun.
+    destruct (cleanup_pathname fl (e_path e)) as [qs| | |] eqn:Ecl;
+      try (injection Hrun as <- <- <-; split; [exact Hrefl|discriminate]).
+    destruct (cleanup_names fl (e_path e) qs Hs2 Hs3 Ecl) as (k & Hrel & Hk & Hlen & Hne & _ & _).
+    destruct ((e_type e =? T_HARDLINK)%N && str_eqb qs (e_link e));
+      [injection Hrun as <- <- <-; split; [exact Hrefl|discriminate]|].
+    rewrite Hs1, Hcwd in Hrun.
+    destruct (check_symlinks fl false (st_fs st) T (parse qs)) as [s1 fs1] eqn:Ecs.
+    assert (Hpl : (0 < p_len (parse qs))%nat) by (rewrite Hlen; destruct qs; [congruence|cbn; lia]).
+    destruct (check_symlinks_spec fl false (length T + length k) k (parse qs) (st_fs st) s1 fs1 Hs1 Hctx Hrel Hk Hpl Ecs) as [E1 Hok].
+    set (st1 := with_fs st fs1) in *.
+    assert (X1 : stx (length T + length k) false st st1) by (now apply stx_fs).
+    destruct s1; try (injection Hrun as <- <- <-; split; [eapply changed_of_stx; eauto; now constructor|discriminate]).
+    destruct (Hok eq_refl) as [F1 Fin1]. specialize (Fin1 eq_refl).
+    rewrite edit_deep_short in Hrun by (rewrite Hlen; now apply Hshort).
+    set (w0 := w_set_name _ (parse qs)) in Hrun.
+    destruct (restore_entry fl e st1 w0) as [[ret st2] w2] eqn:Ere.
+    assert (C1 : cur k st1 st1 false).
+    { constructor; [apply stx_refl|eapply ctx_ext; eauto|exact F1|exact Hcwd]. }
+    destruct (restore_entry_spec fl e k st1 st1 w0 ret st2 w2 Hsec Hhl C1 Hrel ltac:(intros i Hi; discriminate) eq_refl Ere)
+      as (sy & C2 & N2 & F2 & T2 & S2).
+    rewrite <- (cu_cwd _ _ _ _ C2) in Hrun. rewrite with_cwd_same in Hrun.
+    set (st4 := if _ then add_fixup st2 _ else st2) in Hrun.
+    assert (C4 : cur k st1 st4 sy) by (unfold st4; destruct (_ || _); [now apply cur_fixup|exact C2]).
+    injection Hrun as <- <- <-.
+    split.
+    - apply (changed_of_stx (length T + length k) (false || sy) st st4); [now constructor|].
+      eapply stx_trans; [exact X1|apply (cu_stx _ _ _ _ C4)].
+    - intros w Hw. exists k, st1, sy.
+      assert (w = w2) by (destruct ret; congruence). subst w.
+      repeat split; auto.
+      + now rewrite N2.
+      + intros ->. destruct (cu_stx _ _ _ _ C4) as (E4 & _ & _). eapply nfinal_ext; eauto.
+  Qed.
+
+  Lemma ext_rename : forall D fs old new,
+    wok T (root fs) (resolve (root fs) T old false) ->
+    wok T (root fs) (resolve (root fs) T new false) -> wdepth D (resolve (root fs) T new false) ->
+    inclean T O (root fs) ->
+    ext T O D true fs (snd (sys_rename fs T old new)).
+  Proof.
+    intros D fs old new Ho Hn Hd Hcl. unfold sys_rename.
+    destruct (resolve (root fs) T old false) as [e|d|d k [src|]]; cbn [snd]; try apply ext_refl.
+    destruct (resolve (root fs) T new false) as [e|d'|d' k' o]; cbn [snd]; try apply ext_refl.
+    destruct Ho as [Hpd Hsrc]. destruct Hn as [Hpd' _]. cbn in Hd.
+    assert (Hclean : allin (fun i => ~ O i) src).
+    { symmetry in Hsrc. eapply inside_leaf_clean; eauto. }
+    assert (Hgo : ext T O D true fs (mkFs (add_ent d' k' src (del_ent d' k' (del_ent d k (root fs)))) (nino fs)) \/
+                  exists es m t, src = Dir es m t).
+    { destruct src as [ff i dd mm tt|es mm tt|tg]; [left|right; now eexists _, _, _|left].
+      - change true with (false || true). eapply ext_trans; [apply (ext_del_ent T O D fs d k Hpd)|].
+        change true with (false || true). eapply ext_trans.
+        + apply (ext_del_ent T O D (mkFs (del_ent d k (root fs)) (nino fs)) d' k' Hpd').
+        + cbn [root nino]. apply (ext_add_ent T O D true (mkFs (del_ent d' k' (del_ent d k (root fs))) (nino fs)) d' k' _ (nino fs)); auto.
+          * apply N.le_refl.
+          * discriminate.
+      - change true with (false || true). eapply ext_trans; [apply (ext_del_ent T O D fs d k Hpd)|].
+        change true with (false || true). eapply ext_trans.
+        + apply (ext_del_ent T O D (mkFs (del_ent d k (root fs)) (nino fs)) d' k' Hpd').
+        + cbn [root nino]. apply (ext_add_ent T O D true (mkFs (del_ent d' k' (del_ent d k (root fs))) (nino fs)) d' k' _ (nino fs)); auto.
+          * apply N.le_refl.
+          * discriminate. }
+    destruct src as [ff i dd mm tt|es mm tt|tg]; cbn [snd]; try apply ext_refl;
+      destruct o as [[| |]|]; cbn [snd]; try apply ext_refl;
+      destruct Hgo as [Hgo|(? & ? & ? & Hgo)]; try discriminate; exact Hgo.
+  Qed.
+
+  Lemma finish_spec : forall fl e k stA st sy w r st',
+    cur k stA st sy -> relname (w_name w) k -> wfd_ok w -> wtmp_ok w ->
+    (sy = true -> chmod_safe e w) -> (sy = false -> nfinal k (st_fs st)) ->
+    finish fl e st w = (r, st') -> exists sy', cur k stA st' sy'.
+  Proof.
+    intros fl e k stA st sy w r st' C Hrel Hfd Htmp Hcs Hfin Hrun. unfold finish in Hrun.
+    pose proof (cu_cwd _ _ _ _ C) as Hcwd.
+    set (D := (length T + length k)%nat).
+    (* data *)
+    set (fs1 := match w_fd w with Some i => if is_nil (e_data e) then st_fs st else fd_write (st_fs st) i (e_data e) | None => st_fs st end) in Hrun.
+    assert (E1 : ext T O D false (st_fs st) fs1).
+    { unfold fs1. destruct (w_fd w) as [i|] eqn:Efd; [|apply ext_refl]. destruct (is_nil (e_data e)); [apply ext_refl|].
+      unfold fd_write. apply ext_map_ino; [apply (c_out _ (cu_ctx _ _ _ _ C))|now apply Hfd]. }
+    pose proof (cur_step_f _ _ _ _ _ C E1) as C1.
+    assert (Fin1 : sy = false -> nfinal k fs1) by (intros H; eapply nfinal_ext; eauto).
+    (* set_mode *)
+    set (m2 := if w_todo_mode w && negb (e_type e =? T_SYMLINK)%N && negb (e_type e =? T_DIR)%N then _ else (SOk, fs1)) in Hrun.
+    assert (E2 : ext T O D false fs1 (snd m2)).
+    { unfold m2. destruct (w_todo_mode w && negb (e_type e =? T_SYMLINK)%N && negb (e_type e =? T_DIR)%N) eqn:Econd; [|apply ext_refl].
+      apply andb_prop in Econd as [Econd _]. apply andb_prop in Econd as [Etm Esy]. apply negb_true_iff in Esy.
+      destruct (w_fd w) as [i|] eqn:Efd.
+      - cbn [snd]. unfold fd_chmod. apply ext_map_ino; [apply (c_out _ (cu_ctx _ _ _ _ C1))|now apply Hfd].
+      - destruct (sys_chmod fs1 (st_cwd st) (w_name w) (w_mode w)) as [[en|] fs'] eqn:Ech; cbn [snd]; [apply ext_refl|].
+        apply snd_eq in Ech. rewrite Ech.
+        assert (Hf : nfinal k fs1).
+        { destruct sy; [|now apply Fin1]. destruct (Hcs eq_refl) as [H|H]; congruence. }
+        rewrite Hcwd. apply ext_chmod; [|apply (c_out _ (cu_ctx _ _ _ _ C1))|apply (c_cl _ (cu_ctx _ _ _ _ C1))].
+        apply (name_wok k fs1 (w_name w) true); auto; [apply (cu_ctx _ _ _ _ C1)|apply (cu_nf _ _ _ _ C1)]. }
+    destruct m2 as [r1 fs2]. cbn [snd] in E2.
+    pose proof (cur_step_f _ _ _ _ _ C1 E2) as C2. cbn [with_fs st_fs] in C2.
+    (* set_times *)
+    set (m3 := match e_mtime e with Some t => _ | None => (SOk, fs2) end) in Hrun.
+    assert (E3 : ext T O D false fs2 (snd m3)).
+    { unfold m3. destruct (e_mtime e) as [t|]; [|apply ext_refl]. destruct (w_todo_times w); [|apply ext_refl].
+      destruct (w_fd w) as [i|] eqn:Efd.
+      - cbn [snd]. unfold fd_utimens. apply ext_map_ino; [apply (c_out _ (cu_ctx _ _ _ _ C2))|now apply Hfd].
+      - destruct (sys_utimens_nofollow fs2 (st_cwd st) (w_name w) t) as [[en|] fs'] eqn:Eut; cbn [snd]; [apply ext_refl|].
+        apply snd_eq in Eut. rewrite Eut. rewrite Hcwd.
+        pose proof (nm_wok k (w_name w) Hrel _ _ _ C2) as [X _]. cbn [with_fs st_fs st_cwd] in X. rewrite Hcwd in X.
+        apply ext_utimens; auto; [apply (c_out _ (cu_ctx _ _ _ _ C2))|apply (c_cl _ (cu_ctx _ _ _ _ C2))]. }
+    destruct m3 as [r2 fs3]. cbn [snd] in E3.
+    pose proof (cur_step_f _ _ _ _ _ C2 E3) as C3. cbn [with_fs st_fs] in C3.
+    (* rename of the temporary *)
+    set (m4 := match w_fd w, w_tmp w with Some _, Some tmp => _ | _, _ => (SOk, fs3) end) in Hrun.
+    assert (E4 : ext T O D true fs3 (snd m4)).
+    { unfold m4. destruct (w_fd w) as [i|]; [|apply ext_refl]. destruct (w_tmp w) as [tmp|] eqn:Etmp; [|apply ext_refl].
+      assert (tmp = tmp_name (w_name w)) by (destruct Htmp as [H|H]; congruence). subst tmp.
+      pose proof (nm_wok k (w_name w) Hrel _ _ _ C3) as [Xn Xd]. cbn [with_fs st_fs st_cwd] in Xn, Xd. rewrite Hcwd in Xn, Xd.
+      pose proof (tmp_wok k (w_name w) _ _ _ C3 Hrel) as [Yn _]. cbn [with_fs st_fs st_cwd] in Yn. rewrite Hcwd in Yn.
+      rewrite Hcwd.
+      destruct (sys_rename fs3 T (tmp_name (w_name w)) (w_name w)) as [[en|] fs'] eqn:Ern; cbn [snd].
+      - apply ext_weaken. apply ext_unlink. exact Yn.
+      - apply snd_eq in Ern. rewrite Ern. apply ext_rename; auto. apply (c_cl _ (cu_ctx _ _ _ _ C3)). }
+    destruct m4 as [r3 fs4]. cbn [snd] in E4.
+    pose proof (cur_step _ _ _ _ _ _ C3 E4) as C4. cbn [with_fs st_fs] in C4.
+    injection Hrun as _ <-. eexists. exact C4.
+  Qed.
+
+  (* (d) one entry, whatever it is (except a hard link that carries data) and whatever is there *)
+  Theorem restore_confined : forall fl e st rr st',
+    secure fl -> hl_ok e -> short fl e -> Inv st ->
+    restore fl st e = (rr, st') -> changed st st'.
+  Proof.
+    intros fl e st rr st' Hsec Hhl Hshort HI Hrun. unfold restore in Hrun.
+    destruct (header fl e st) as [[r st1] ow] eqn:Eh.
+    destruct (header_spec fl e st r st1 ow Hsec Hhl Hshort HI Eh) as [Hch Hw].
+    destruct ow as [w|]; [|now injection Hrun as _ <-].
+    destruct (Hw w eq_refl) as (k & stA & sy & C & Hrel & Hfd & Htmp & Hcs & Hfin).
+    destruct (finish fl e st1 w) as [r2 st2] eqn:Ef. injection Hrun as _ <-.
+    destruct (finish_spec fl e k stA st1 sy w r2 st2 C Hrel Hfd Htmp Hcs Hfin Ef) as (sy' & C').
+    destruct Hch as (P1 & U1 & I1).
+    (* from st1 to st2: through the two bundles relative to stA *)
+    destruct (cu_stx _ _ _ _ C) as (EA1 & CA1 & UA1). destruct (cu_stx _ _ _ _ C') as (EA2 & CA2 & UA2).
+    split; [|split].
+    - rewrite <- P1. rewrite (ext_prune _ _ _ _ _ _ EA2), <- (ext_prune _ _ _ _ _ _ EA1). reflexivity.
+    - congruence.
+    - constructor; [apply (cu_cwd _ _ _ _ C')|apply (cu_ctx _ _ _ _ C')].
+  Qed.
 End Step.
